@@ -228,8 +228,10 @@ def check_C01(ctx):
     for k in range(nh):
         if ctx.time_left() < 8:
             break
-        nv = rng.randint(2, 6)
+        nv = rng.randint(2, 8)
         names = [chr(ord('a') + i) for i in range(nv)]
+        if k % 5 == 4:
+            names = rng.sample(WIDE_NAMES, rng.randint(9, 10))
         h = History(ctx, names)
         _checked_history(ctx, h, rng.randint(10, 80))
         ctx.case(('history', k, len(h.s.lines)))
@@ -510,6 +512,8 @@ def check_C02(ctx):
             break
         nv = rng.randint(1, 4)
         names = [chr(ord('a') + i) for i in range(nv)]
+        if k % 6 == 5:
+            names = rng.sample(WIDE_NAMES, rng.randint(9, 10))
         h = History(ctx, names)
         for _ in range(rng.randint(10, 70)):
             h.step()
@@ -947,6 +951,8 @@ def check_C06(ctx):
         if ctx.time_left() < 6:
             break
         names = [chr(ord('a') + i) for i in range(rng.randint(2, 5))]
+        if k % 6 == 5:
+            names = rng.sample(WIDE_NAMES, rng.randint(9, 10))
         h = History(ctx, names)
         held_tt = {}
         for _ in range(rng.randint(30, 150)):
@@ -1092,6 +1098,8 @@ def check_C07(ctx):
             break
         nv = rng.randint(4, 5)
         names = [chr(ord('a') + i) for i in range(nv)]
+        if k % 6 == 5:
+            names = rng.sample(WIDE_NAMES, rng.randint(9, 10))
         rng.shuffle(names)
         h = History(ctx, names)
         for _ in range(rng.randint(10, 40)):
@@ -1577,6 +1585,8 @@ def check_C17(ctx):
             break
         nv = rng.randint(1, 4)
         names = [chr(ord('a') + i) for i in range(nv)]
+        if k % 6 == 5:
+            names = rng.sample(WIDE_NAMES, rng.randint(9, 10))
         dyn = rng.random() < 0.4
         h = History(ctx, names)
         if dyn:
